@@ -6,6 +6,7 @@ pub mod c01;
 pub mod c02;
 pub mod c03;
 pub mod c04;
+pub mod c05;
 pub mod c06;
 pub mod c07;
 pub mod c08;
@@ -39,5 +40,5 @@ impl PropDef {
 }
 
 pub fn registry() -> Vec<PropDef> {
-    vec![c01::def(), c02::def(), c03::def(), c04::def(), c06::def(), c07::def(), c08::def(), c09::def(), c11::def(), c12::def(), c13::def(), c14::def(), c15::def(), c16::def(), c17::def()]
+    vec![c01::def(), c02::def(), c03::def(), c04::def(), c05::def(), c06::def(), c07::def(), c08::def(), c09::def(), c11::def(), c12::def(), c13::def(), c14::def(), c15::def(), c16::def(), c17::def()]
 }
